@@ -35,6 +35,7 @@ public:
 
 	SmartObject(){
 		_p = new SmartObject_;
+		++_p->rc;
 	}
 	SmartObject(const SmartObject& n)
 	{
